@@ -2,7 +2,7 @@
 nextest (xxh64 crate, public Partitioner API, TestList::process_output through hook H4) + an
 independent oracle on the implementation's own answers."""
 import json, os, re
-import vlib
+import vlib, gen_tie
 from vlib import coq_str, coq_list, decode_str
 
 PROP = "C13"
@@ -280,6 +280,11 @@ def run(tier, seed):
     chk = vlib.Check(PROP, tier, seed)
     gate = vlib.coq_gate(PROP)
     vlib.gate_or_violation(chk, gate)
+    # DESIGN 11.7 (fourth round): TestFilter::filter_match as a whole (ignored -> name / expression -> partition ->
+    # Matches, with name_match and filter_expression_match) is regenerated from the Rust source and proved equal to
+    # Model/FilterFull.v's filter_match_full for all inputs; a failure is reported when the check finishes unless a
+    # stage below finds a concrete failing input
+    gen_tie.gate(chk, ['filter_match'], gate, family="glue")
     binary, err = vlib.build_harness()
     if binary is None:
         chk.violation("broken-obligation", "harness-build", dict(error=err), no_input=True)
